@@ -366,6 +366,19 @@ func (c *Ctx) termOfID(id int64, so smt.Sort) *smt.Term {
 		panic(c.abort("dangling term id %d", id))
 	}
 	if t.Sort != so {
+		// package-level float data is built (in IEEE terms) before a harness switches to exact real arithmetic:
+		// a finite constant means the same number there
+		if so.K == smt.KReal && t.IsConst() && t.Sort.IsFP() {
+			var f float64
+			if t.Sort.K == smt.KFP32 {
+				f = float64(t.F32Val())
+			} else {
+				f = t.F64Val()
+			}
+			if f == f && f-f == 0 {
+				return c.St.RealF(f)
+			}
+		}
 		panic(c.abort("term id %d has sort %v, array wants %v", id, t.Sort, so))
 	}
 	return t
